@@ -16,7 +16,7 @@ Print Assumptions C15_mutation_sites_classified.
 
 Theorem C15_inventory_no_other_shared_state :
   forall (content : nat -> nat -> nat) (history : list op) (i key : nat),
-    (i < length shared_inventory)%nat ->
+    (i < List.length shared_inventory)%nat ->
     read content (store_run content (map new_cell (map snd shared_inventory)) history) i key = Some (content i key).
 Proof.
   intros content history i key H. apply no_other_shared_state.
